@@ -38,7 +38,7 @@ def gen_history(rng):
             steps.append({'op': 'reset'})
         else:
             steps.append({'op': 'arith', 'fn': rng.choice(['+', '-', '*']), 'y_inexact': rng.random() < 0.5})
-    return {'s': s, 'nw': nw, 'nf': nf, 'r': r, 'o': o, 'n': n, 'steps': steps, 'reg': rng.choice(['ctor', 'ctor', 'like'])}
+    return {'s': s, 'nw': nw, 'nf': nf, 'r': r, 'o': o, 'n': n, 'steps': steps, 'reg': rng.choice(['ctor', 'ctor', 'like', 'append'])}
 
 def run_history(h, res):
     fx = lib.impl(); import numpy as np
@@ -48,8 +48,15 @@ def run_history(h, res):
         init = 0 if h['n'] == 0 else [0] * h['n']
         if h.get('reg') == 'like':      # the callbacks registered on an object created from a template (like=) by the callbacks keyword
             tmpl = fx.Fxp(init, s, nw, nf, rounding=h['r'], overflow=h['o']); x = fx.Fxp(init, like=tmpl, callbacks=[rec])
+        elif h.get('reg') == 'append':  # registered afterwards on the object's own list
+            x = fx.Fxp(init, s, nw, nf, rounding=h['r'], overflow=h['o']); x.callbacks.append(rec)
         else:
             x = fx.Fxp(init, s, nw, nf, rounding=h['r'], overflow=h['o'], callbacks=[rec])
+        # a bystander: another object of the same format with no callback of its own; what happens to it is no event of x
+        rec.log.clear()
+        by = fx.Fxp(init, s, nw, nf, rounding=h['r'], overflow=h['o']); by(by.upper * 4 + by.precision / 4); _ = by + by
+        if rec.log:
+            res.fail(h, 'C04: a callback registered on one object was invoked for writes to ANOTHER object (or for the operands / results of its arithmetic)', expected=[], got=list(rec.log)); return
     except Exception as e:
         res.fail(h, 'C04: constructing the object raised %s' % lib.exc_name(e), got=str(e)[:200]); return
     obs = []; msteps = []
